@@ -526,6 +526,10 @@ impl Property for C01 {
             let pos = rng.usize(0, sc.cmds.len());
             sc.cmds.insert(pos, crate::reflang::Cmd::new(0, h, d, crate::reflang::RArea::Nil));
         }
+        if rng.chance(15) {
+            gen::arith_template(rng, &mut sc.cmds);
+            sc.set_knob("arith", 1);
+        }
         sc.stdin = gen::gen_stdin(rng, 60);
         let fault_free = rng.chance(40);
         sc.plan = gen::gen_plan(rng, fault_free);
@@ -533,7 +537,7 @@ impl Property for C01 {
             Tier::Quick => *rng.pick(&[60u64, 200, 400]),
             Tier::Thorough => *rng.pick(&[60u64, 400, 400, 2000, 5000]),
         };
-        sc.cap_bits = if rng.chance(2) { 1024 } else if rng.chance(30) { 192 } else { 96 };
+        sc.cap_bits = if rng.chance(2) { 1024 } else if rng.chance(30) || sc.knob("arith") == 1 { 192 } else { 96 };
         sc.set_knob("app", if rng.chance(25) { 1 } else { 0 });
         sc
     }
